@@ -60,7 +60,8 @@ MIN_COUNTERS = {'contract_pix2sky': 1000, 'contract_sky2pix': 1000, 'contract_sk
                 'psfmap_small_rows_maps': 3, 'psfmap_beyond_edge_probes_judged': 150,
                 'ctor_supplied_beam_helpers': 100, 'ctor_supplied_beam_header_same_beam': 30,
                 'ctor_supplied_beam_header_different_beam': 30, 'ctor_supplied_beam_header_no_beam_keywords': 30,
-                'ctor_lookups_judged': 1000}
+                'ctor_lookups_judged': 1000,
+                'ellipse_wide_domain_direct_only': 5000, 'ellipse_large_coarse_far_judged': 300}
 
 TOL_PIX = 1e-6       # pixels, statement
 TOL_SKY = 1e-9       # degrees, statement
@@ -70,6 +71,10 @@ DOM_POS = 20.0       # deg from the reference point: positions judged
 DOM_ELL_OFF = 3.0    # deg from the reference point: ellipses judged
 DOM_ELL_LEN = 0.1    # deg: ellipse axes judged
 DOM_VEC_LEN = 1.0    # deg: vectors judged
+DOM_ELL_WIDE = 0.4   # deg: ellipse axes for which the DIRECT clauses are judged (20 px at 60 arcsec = 0.33 deg), any position
+                     # in the position domain: major axis and angle are, by definition, the image of the axis vector whose tip
+                     # is carried through the oracle - exact at any size; only the round trip and the minor axis (conformal
+                     # approximation) need the tight first-order domain above
 THIN = 5e-4
 
 _OBS = None
@@ -531,7 +536,8 @@ def post_sky2pix_ellipse(self, pos, a, b, pa, result):
     if not (a > 0 and b > 0):
         o.count('ellipse_degenerate')
         return True
-    if not (_off_axis(z, ra, dec) <= DOM_ELL_OFF and max(a, b) <= DOM_ELL_LEN):
+    tight = _off_axis(z, ra, dec) <= DOM_ELL_OFF and max(a, b) <= DOM_ELL_LEN
+    if not (tight or (_off_axis(z, ra, dec) <= DOM_POS and max(a, b) <= DOM_ELL_WIDE and abs(dec) <= 89.0)):
         o.count('ellipse_out_of_domain')
         return True
     x, y, sx, sy, theta = [float(v) for v in result]
@@ -556,6 +562,9 @@ def post_sky2pix_ellipse(self, pos, a, b, pa, result):
     o.worst('sky2pix_ellipse_theta_deg', e2)
     if not (e1 <= TOL_REL and e2 <= TOL_ANG):
         o.violate('sky2pix_ellipse_vs_reference', dict(w, len_rel=e1, angle_deg=e2))
+    if not tight:
+        o.count('ellipse_wide_domain_direct_only')
+        return True
     if _square(z):
         # conformal to first order: the image of the perpendicular sky vector is the minor axis
         e3 = _rel(sy, lmin)
@@ -595,8 +604,11 @@ def post_pix2sky_ellipse(self, pixel, sx, sy, theta, result):
     lmaj, pmaj = _skyvec(z, x, y, x + sx * np.cos(t), y + sx * np.sin(t))
     lmin, _ = _skyvec(z, x, y, x + sy * np.cos(t - np.pi / 2), y + sy * np.sin(t - np.pi / 2))
     if not (_pixel_in_domain(z, x, y) and _pixel_in_domain(z, x + sx * np.cos(t), y + sx * np.sin(t))
-            and _fin(ra0, dec0, lmaj, lmin) and _off_axis(z, ra0, dec0) <= DOM_ELL_OFF
-            and max(lmaj, lmin) <= DOM_ELL_LEN):
+            and _fin(ra0, dec0, lmaj, lmin)):
+        o.count('ellipse_out_of_domain')
+        return True
+    tight = _off_axis(z, ra0, dec0) <= DOM_ELL_OFF and max(lmaj, lmin) <= DOM_ELL_LEN
+    if not (tight or (_off_axis(z, ra0, dec0) <= DOM_POS and max(lmaj, lmin) <= DOM_ELL_WIDE and abs(float(dec0)) <= 89.0)):
         o.count('ellipse_out_of_domain')
         return True
     if not (min(sx, sy) >= 1e-4 and min(lmaj, lmin) >= 1e-9):
@@ -618,6 +630,11 @@ def post_pix2sky_ellipse(self, pixel, sx, sy, theta, result):
     o.worst('pix2sky_ellipse_pa_deg', e2)
     if not (e0 <= TOL_SKY and e1 <= TOL_REL and e2 <= TOL_ANG):
         o.violate('pix2sky_ellipse_vs_great_circle', dict(w, centre_deg=e0, len_rel=e1, angle_deg=e2))
+    if not tight:
+        o.count('ellipse_wide_domain_direct_only')
+        if sx >= 10.0 and np.sqrt(abs(np.linalg.det(z.cd))) * 3600.0 >= 30.0 and _off_axis(z, ra0, dec0) >= 2.0:
+            o.count('ellipse_large_coarse_far_judged')      # 10-20 px, >= 30 arcsec pixels, >= 2 deg off axis
+        return True
     if _square(z):
         e3 = _rel(b, lmin)
         o.worst('pix2sky_ellipse_minor_rel', e3)
@@ -871,6 +888,12 @@ def run(case):
                 else:
                     o.count('positions_beyond_ellipse_domain')
                     rows_in.append((x, y, r, th, 0, 0, 0, 0, 0, 0))
+                # the statement's largest ellipses (10..20 px) at this position whatever the pixel scale: direct clauses
+                lx = float(rng.uniform(10.0, 20.0))
+                ly = lx * float(rng.uniform(0.2, 1.0))
+                w.pix2sky_ellipse((x, y), lx, ly, _angle(rng))
+                la = float(rng.uniform(10.0, 20.0)) * min(abs(case['cdelt'][0]), abs(case['cdelt'][1]))
+                w.sky2pix_ellipse((ra, dec), la, la * float(rng.uniform(0.2, 1.0)), _angle(rng))
             except Exception as ex:
                 import traceback
                 o.n_eval += 1
